@@ -16,6 +16,7 @@ var scanProps = []string{"C01", "C02", "C03", "C04", "C06", "C07", "C08", "C09",
 
 func init() {
 	engines["SCAN"] = scanEngine
+	engines["C18S"] = scanEngine // C18, controller side: the lock follows the arrival of the capacity (mismatches_C18S / propfail_C18S)
 	engines["C13S"] = scanEngine // C13, scan side: which nodes count toward capacity (mismatches_C13S / propfail_C13S)
 	engines["C05S"] = scanEngine // C05, scan side: scale-up composition and the node-size cache (mismatches_C05S / propfail_C05S)
 	for _, p := range scanProps {
